@@ -49,6 +49,7 @@ type c18Cfg struct {
 	TLSCfg   bool          // Config.SSLConfig is set although Config.SSL is false: still a plain connection to 6667
 	FloodCtl bool          // flood protection on (Config.Flood false)
 	Chatter  time.Duration // > 0: a user task sends a short line every Chatter while the connection is up
+	Via      string        // "" = Connect() both times | "to" = ConnectTo(server) the second time | "to-pass" = ConnectTo(server, password) both times with an empty Config.Pass
 }
 
 func (c c18Cfg) String() string {
@@ -68,11 +69,14 @@ func (c c18Cfg) extra() string {
 	if c.Chatter > 0 {
 		x += fmt.Sprintf(" user-line-every=%s", c.Chatter)
 	}
+	if c.Via != "" {
+		x += " connect-via=" + c.Via
+	}
 	return x
 }
 
 func (c c18Cfg) params() map[string]interface{} {
-	return map[string]interface{}{"given": c.Given, "pass": c.Pass, "negotiation": c.Cap, "ssl": c.SSL, "server": c.Server.Addr, "pingfreq": c.PingFreq.String(), "tracking": c.Tracking, "welcome": c.Welcome, "tlscfg": c.TLSCfg, "floodctl": c.FloodCtl, "chatter": c.Chatter.String()}
+	return map[string]interface{}{"given": c.Given, "pass": c.Pass, "negotiation": c.Cap, "ssl": c.SSL, "server": c.Server.Addr, "pingfreq": c.PingFreq.String(), "tracking": c.Tracking, "welcome": c.Welcome, "tlscfg": c.TLSCfg, "floodctl": c.FloodCtl, "chatter": c.Chatter.String(), "via": c.Via}
 }
 
 func (c c18Cfg) build() *client.Config {
@@ -86,6 +90,9 @@ func (c c18Cfg) build() *client.Config {
 	cfg.Flood = !c.FloodCtl
 	cfg.Server = c.Server.Addr
 	cfg.Pass = c.Pass
+	if c.Via == "to-pass" {
+		cfg.Pass = "" // handed to ConnectTo instead
+	}
 	cfg.EnableCapabilityNegotiation = c.Cap
 	cfg.SSL = c.SSL
 	if c.SSL {
@@ -171,7 +178,15 @@ func c18RunConfig(e *Enum, c c18Cfg) {
 					x.PreloadEOF() // the server closes at once: the TLS handshake cannot succeed
 				}
 			}
-			err := cl.Connect()
+			var err error
+			switch {
+			case c.Via == "to" && cy > 0:
+				err = cl.ConnectTo(c.Server.Addr) // no password argument: the configured one stays
+			case c.Via == "to-pass":
+				err = cl.ConnectTo(c.Server.Addr, c.Pass)
+			default:
+				err = cl.Connect()
+			}
 			if vc != nil {
 				connIdx[cy] = vc.Idx
 			}
@@ -685,6 +700,14 @@ func c18TrafficJob() Job {
 				c := c18Cfg{Server: srv, Pass: pass, TLSCfg: true}
 				e.Case(c.String())
 				c18RunConfig(e, c)
+				// the same through ConnectTo, with and without its password argument
+				for _, via := range []string{"to", "to-pass"} {
+					for _, cp := range []bool{false, true} {
+						c := c18Cfg{Server: srv, Pass: pass, Cap: cp, Via: via}
+						e.Case(c.String())
+						c18RunConfig(e, c)
+					}
+				}
 			}
 		}
 		return e.Done()
@@ -721,7 +744,7 @@ func c18LenJob(from, to int) Job {
 func init() {
 	Register(&Prop{
 		ID:   "C18",
-		Rule: "configurations: full product of NewConfig(nick) defaults / given ident+name x password unset/set x negotiation on/off x SSL on/off x 6 server spellings (name, IPv4, bracketed IPv6; with and without port) x PingFreq {0, -1s, 3s} (thorough: also -1ns, 0.7s, 1.5s, 7s, 11s), plus (job keepalive-under-traffic) flood protection on/off x a user line every 2.5 s / 1 s / never x Config.SSLConfig set with SSL off, each run as a session of two connects on one client with 10 s of virtual time after each (SSL: the server closes during the handshake, only the dial address and the failure of Connect are observed); PING answers: 14 tokens (single byte, with spaces, leading colon, empty-but-present, inner colons, 400 bytes, ...) in trailing form, with a source, in middle form and with a second parameter where legal; each alone in five surroundings, all ordered pairs in one write with chat between or after, and all variants in one session (three rounds, seven rotations, with and without the client's own keep-alive running), before and after the welcome; thorough: also every token length 1..470; one case = one configuration / one probe script, distinct = distinct configurations / scripts",
+		Rule: "configurations: full product of NewConfig(nick) defaults / given ident+name x password unset/set x negotiation on/off x SSL on/off x 6 server spellings (name, IPv4, bracketed IPv6; with and without port) x PingFreq {0, -1s, 3s} (thorough: also -1ns, 0.7s, 1.5s, 7s, 11s), plus (job keepalive-under-traffic) flood protection on/off x a user line every 2.5 s / 1 s / never x Config.SSLConfig set with SSL off, and connects through ConnectTo(server) / ConnectTo(server, password), each run as a session of two connects on one client with 10 s of virtual time after each (SSL: the server closes during the handshake, only the dial address and the failure of Connect are observed); PING answers: 14 tokens (single byte, with spaces, leading colon, empty-but-present, inner colons, 400 bytes, ...) in trailing form, with a source, in middle form and with a second parameter where legal; each alone in five surroundings, all ordered pairs in one write with chat between or after, and all variants in one session (three rounds, seven rotations, with and without the client's own keep-alive running), before and after the welcome; thorough: also every token length 1..470; one case = one configuration / one probe script, distinct = distinct configurations / scripts",
 		Assumptions: []string{
 			"the address is observed at the registered proxy dialler (Config.Proxy set); the direct net.Dialer path passes the same Config.Server string",
 			"for the bracketed IPv6 literal without port the port is expected to be appended to the literal as written ([::1]:6667)",
